@@ -27,6 +27,8 @@ pub struct Profile {
     pub apps_per_round: u64,
     pub sqlite_mix: bool,
     pub options_mix: bool,
+    /// every member sends public (unencrypted) handshake messages, so external observers can follow
+    pub public_handshake: bool,
 }
 
 impl Profile {
@@ -47,6 +49,7 @@ impl Profile {
             apps_per_round: 2,
             sqlite_mix: false,
             options_mix: true,
+            public_handshake: false,
         }
     }
 }
@@ -81,7 +84,16 @@ impl Report {
     }
 }
 
+/// Something that listens to the traffic of a history (e.g. external observers, C16).
+pub trait Tap<C: MlsConfig> {
+    /// a message was handed to the delivery service
+    fn broadcast(&mut self, w: &World<C>, mi: usize, rng: &mut Rng) -> Vec<Failure>;
+    /// a commit was accepted by the group; `active` are the members of the new epoch
+    fn after_commit(&mut self, w: &World<C>, active: &[usize], cmi: usize, rng: &mut Rng) -> Vec<Failure>;
+}
+
 pub struct Hist<'a, C: MlsConfig> {
+    pub tap: Option<&'a mut dyn Tap<C>>,
     pub w: World<C>,
     pub rng: Rng,
     pub prof: Profile,
@@ -153,7 +165,7 @@ impl<'a, C: MlsConfig> Hist<'a, C> {
             s.tree_ext = self.rng.chance(2, 3);
             s.single_welcome = self.rng.chance(1, 2);
             s.path_required = self.rng.chance(1, 4);
-            s.enc_ctl = self.rng.chance(1, 3);
+            s.enc_ctl = !self.prof.public_handshake && self.rng.chance(1, 3);
             s.retention = *self.rng.pick(&[1usize, 2, 3, 5]);
         }
         if self.prof.sqlite_mix {
@@ -248,6 +260,13 @@ impl<'a, C: MlsConfig> Hist<'a, C> {
         (r, out)
     }
 
+    pub fn tap_broadcast(&mut self, mi: usize) {
+        if let Some(t) = self.tap.as_deref_mut() {
+            let f = t.broadcast(&self.w, mi, &mut self.rng);
+            self.rep.failures.extend(f);
+        }
+    }
+
     pub fn register_psk(&mut self) -> Vec<u8> {
         let id = self.rng.bytes(8);
         let val = self.rng.bytes(32);
@@ -279,6 +298,7 @@ impl<'a, C: MlsConfig> Hist<'a, C> {
             self.w.log(format!("app {sname} -> {}", r.s()));
             let Some(m) = m else { continue };
             let mi = self.w.push_msg("app", &sname, epoch, m, "");
+            self.tap_broadcast(mi);
             for &i in &active {
                 if i == s {
                     continue;
@@ -349,6 +369,7 @@ impl<'a, C: MlsConfig> Hist<'a, C> {
                 if let Some(m) = m {
                     let mi = self.w.push_msg("proposal", &pname, epoch, m, &note);
                     round_props.push(mi);
+                    self.tap_broadcast(mi);
                 }
             }
         }
@@ -617,6 +638,12 @@ impl<'a, C: MlsConfig> Hist<'a, C> {
         }
         self.tree_oracles(c, cmi, &tree_before, cleaf, &seals, &joiners, &edits, &priv_before, &active, out.contains_update_path);
         self.ghost_oracle(cmi);
+        if let Some(t) = self.tap.as_deref_mut() {
+            let f = t.broadcast(&self.w, cmi, &mut self.rng);
+            self.rep.failures.extend(f);
+            let f = t.after_commit(&self.w, &now, cmi, &mut self.rng);
+            self.rep.failures.extend(f);
+        }
         // ---- occasionally persist and reload (C06) ---------------------------------------------------
         for &i in &now {
             if self.rng.chance(self.prof.p_reload, 1000) {
@@ -956,6 +983,7 @@ pub fn run_histories(o: &Opts, prof: Profile, n: u64, stem: &str, focus: &[&'sta
             mk: &mk,
             next_name: 0,
             tree_qa: Some(&mut qa),
+            tap: None,
             kps: vec![],
             last_commit_epoch_ok: true,
         };
